@@ -215,6 +215,23 @@ Fixpoint scan12a (fin all : list entry) (t : tr12) (h : list (aop * ares * deliv
   | (o, r, d) :: rest => applied_announced fin all t o r d && scan12a fin all (tr12_step t o r) rest
   end.
 
+(** exactly one event per entry that ENTERED the replica: an entry that was announced is held or
+    superseded from then on, so it cannot enter -- and must not be announced -- a second time, unless the
+    document was removed in between (re-delivery of an entry already held, by either path, is a
+    rejected offer) *)
+Definition event_entry (ev : event) : entry := match ev with LocalInsert e => e | RemoteInsert e _ _ _ => e end.
+Fixpoint scan12b (seen : list entry) (h : list (aop * ares * deliveries)) : bool :=
+  match h with
+  | [] => true
+  | (o, r, d) :: rest =>
+      let evs := map (fun cd => event_entry (snd cd)) d in
+      forallb (fun e => negb (existsb (entry_eqb e) seen)) evs
+      && scan12b (match o, r with
+                  | ADrop ns, AOk => filter (fun e => negb (e_ns e =? ns)) seen
+                  | _, _ => seen ++ evs
+                  end) rest
+  end.
+
 Definition final_eqb (a b : N * list entry) : bool := (fst a =? fst b) && list_eqb entry_eqb (snd a) (snd b).
 
 (** replies only (the concurrent phase does not look at event deliveries) *)
@@ -249,5 +266,6 @@ Definition check (c : case) : N :=
                                    && ((negb (bad =? 0)) || lin)
             else scan12 (mkT12 [] [] [] (mkT14 [] [])) (c_hist c)
                  && scan12a (flat_map snd (c_final c)) (flat_map (fun x => carried12 (fst (fst x), snd (fst x))) acks)
-                            (mkT12 [] [] [] (mkT14 [] [])) (c_hist c) in
+                            (mkT12 [] [] [] (mkT14 [] [])) (c_hist c)
+                 && scan12b [] (c_hist c) in
   bit (negb m1) 1 + bit (negb m2) 2.
